@@ -769,12 +769,143 @@ Definition d_pair (args : list val) (obs : val) : verdict :=
   | _, _ => bad_case
   end.
 
+(* =====================================================================================================================
+   5. The TileXYZ object driven through its setters, then converted; the zoom-window hook
+   ===================================================================================================================== *)
+Definition tile_eqb (a b : tile) : bool :=
+  (th a =? th b) && (tx a =? tx b) && (ty a =? ty b) && (tv a =? tv b) && (tz a =? tz b).
+Lemma tile_eqb_spec a b : tile_eqb a b = true <-> a = b.
+Proof.
+  unfold tile_eqb. rewrite !andb_true_iff, !Z.eqb_eq. destruct a, b; cbn. split; [intros ((((-> & ->) & ->) & ->) & ->); reflexivity|].
+  intros [= -> -> -> -> ->]. tauto.
+Qed.
+(* one observed setter call, judged from the state observed BEFORE it: get-after-set, frame, refusal leaves the object unchanged *)
+Definition zoom35 (z : Z) : bool := (0 <=? z) && (z <=? 35).
+Definition check_step (prev : tile) (o : tile_op) (obs : bool * tile) : bool :=
+  let '(e, cur) := obs in
+  match o with
+  | SetX x => negb e && tile_eqb cur (mkt (th prev) x (ty prev) (tv prev) (tz prev))
+  | SetY y => negb e && tile_eqb cur (mkt (th prev) (tx prev) y (tv prev) (tz prev))
+  | SetZ z => negb e && tile_eqb cur (mkt (th prev) (tx prev) (ty prev) (tv prev) z)
+  | SetH h => if zoom35 h then negb e && tile_eqb cur (mkt h (tx prev) (ty prev) (tv prev) (tz prev)) else e && tile_eqb cur prev
+  | SetV v => if zoom35 v then negb e && tile_eqb cur (mkt (th prev) (tx prev) (ty prev) v (tz prev)) else e && tile_eqb cur prev
+  end.
+Fixpoint check_trace (prev : tile) (ops : list tile_op) (obs : list (bool * tile)) : bool :=
+  match ops, obs with
+  | [], [] => true
+  | o :: r, p :: q => check_step prev o p && check_trace (snd p) r q
+  | _, _ => false
+  end.
+Lemma check_step_spec prev o obs : check_step prev o obs = true <-> obs = apply_op prev o.
+Proof.
+  destruct obs as [e cur]. unfold check_step, zoom35. destruct o as [h|x|y|v|z]; cbn [apply_op]; unfold tile_zoom_ok, max_tile_zoom;
+    try (destruct ((0 <=? _) && (_ <=? 35))); rewrite andb_true_iff, tile_eqb_spec; try rewrite negb_true_iff;
+    (split; [intros [-> ->]; reflexivity|intros [= -> ->]; auto]).
+Qed.
+Theorem check_trace_spec prev ops obs : check_trace prev ops obs = true <-> obs = run_ops prev ops.
+Proof.
+  revert prev obs. induction ops as [|o r IH]; intros prev [|p q]; cbn [check_trace run_ops]; try (split; [reflexivity||discriminate|reflexivity||discriminate]).
+  - destruct (apply_op prev o); split; discriminate.
+  - rewrite andb_true_iff, check_step_spec, IH. destruct (apply_op prev o) as [e t'] eqn:A. split.
+    + intros [-> ->]. reflexivity.
+    + intros [= -> ->]. auto.
+Qed.
+
+Definition decode_op (v : val) : option tile_op :=
+  match as_LZ v with
+  | Some [0; a] => Some (SetH a) | Some [1; a] => Some (SetX a) | Some [2; a] => Some (SetY a)
+  | Some [3; a] => Some (SetV a) | Some [4; a] => Some (SetZ a)
+  | _ => None
+  end.
+Definition init_args (v : val) : option (option (Z * Z * Z * Z * Z)) :=          (* Some None = the zero value &TileXYZ{} *)
+  match as_LZ v with Some [] => Some None | Some [h; x; y; vz; z] => Some (Some (h, x, y, vz, z)) | _ => None end.
+Definition obs_state (v : val) : option (bool * tile) :=
+  match v with
+  | VL [VB e; VZ h; VZ x; VZ y; VZ vz; VZ z] => Some (e, mkt h x y vz z)
+  | _ => None
+  end.
+Definition state_val (p : bool * tile) : val := VL (VB (fst p) :: map VZ (tile_fields (snd p))).
+
+(* TileObjectSequence: args [init; ops; alias?; E; O; outV]; observed [constructor result; trace; conversion result of the object (twice
+   the same pointer when alias?)], or [E nil] when the constructor refuses *)
+Definition d_objseq (args : list val) (obs : val) : verdict :=
+  match args with
+  | [init; VL opsv; VB alias; VZ E; VZ Of; VZ outV] =>
+      match init_args init, all_opt (map decode_op opsv) with
+      | Some ia, Some ops =>
+          let start := match ia with None => Ok zero_tile | Some (h, x, y, vz, z) => new_tile h x y vz z end in
+          match start, obs with
+          | Err, VL [VE VNil] => mkv true true "-" (VL [VE VNil])
+          | Err, _ => mkv false false "-" (VL [VE VNil])
+          | Ok t0, VL [c; VL tr; conv] =>
+              match as_LZ c, all_opt (map obs_state tr) with
+              | Some cf, Some trace =>
+                  let m := run_ops t0 ops in
+                  let fin := final_tile t0 ops in
+                  let tiles := if alias then [of_LZ (tile_fields fin); of_LZ (tile_fields fin)] else [of_LZ (tile_fields fin)] in
+                  match eval_call false tiles E Of outV conv with
+                  | Some v =>
+                      let c_ok := list_eqb Z.eqb cf (tile_fields t0) in
+                      let p_ctor := match ia with
+                                    | None => list_eqb Z.eqb cf [0; 0; 0; 0; 0]
+                                    | Some (h, x, y, vz, z) => check_new_tile h x y vz z (Some cf)
+                                    end in
+                      mkv (c_ok && list_eqb (fun a b => Bool.eqb (fst a) (fst b) && tile_eqb (snd a) (snd b)) m trace && v_corr v)
+                          (p_ctor && check_trace t0 ops trace && v_prop v) (v_class v)
+                          (VL [of_LZ (tile_fields t0); VL (map state_val m); v_model v])
+                  | None => bad_case
+                  end
+              | _, _ => bad_case
+              end
+          | Ok _, _ => bad_case
+          end
+      | _, _ => bad_case
+      end
+  | _ => bad_case
+  end.
+
+(* the zoom window of the conversions observed through the verif hook VerifExtendedSpatialIDCheckZoom *)
+Definition zoom_window_b (h v : Z) (b : bool) : bool := Bool.eqb b (zoom35 h && zoom35 v).
+Lemma zoom_window_b_spec h v b : zoom_window_b h v b = true <-> (b = true <-> 0 <= h <= 35 /\ 0 <= v <= 35).
+Proof.
+  unfold zoom_window_b, zoom35. destruct (Z.leb_spec 0 h), (Z.leb_spec h 35), (Z.leb_spec 0 v), (Z.leb_spec v 35), b; cbn;
+    split; try discriminate; try reflexivity; try (intros _; split; [reflexivity||lia|reflexivity||lia]); intros [A B]; try discriminate;
+    try (exfalso; lia); try (specialize (B ltac:(lia)); discriminate); try (specialize (A eq_refl); lia).
+Qed.
+Lemma ext_check_zoom_window h v : zoom_window_b h v (ext_check_zoom h v) = true.
+Proof. unfold zoom_window_b, zoom35, ext_check_zoom. apply Bool.eqb_reflx. Qed.
+Definition d_checkzoom (args : list val) (obs : val) : verdict :=
+  match args, obs with
+  | [VZ h; VZ v], VB b => mkv (Bool.eqb b (ext_check_zoom h v)) (zoom_window_b h v b) "-" (VB (ext_check_zoom h v))
+  | _, _ => bad_case
+  end.
+(* the whole grid lo..hi x lo..hi in one call: observed = the answers, hZoom outer, vZoom inner *)
+Definition grid_pairs (lo hi : Z) : list (Z * Z) := list_prod (zrange lo hi) (zrange lo hi).
+Definition d_checkzoom_grid (args : list val) (obs : val) : verdict :=
+  match args, obs with
+  | [VZ lo; VZ hi], VL bs =>
+      if (hi - lo <? 0) || (200 <? hi - lo) then bad_case else
+      match all_opt (map as_B bs) with
+      | Some l =>
+          let ps := grid_pairs lo hi in
+          let m := map (fun p => ext_check_zoom (fst p) (snd p)) ps in
+          mkv (list_eqb Bool.eqb m l)
+              (Nat.eqb (length l) (length ps) && forallb (fun pb => zoom_window_b (fst (fst pb)) (snd (fst pb)) (snd pb)) (combine ps l))
+              "-" (VL (map VB m))
+      | None => bad_case
+      end
+  | _, _ => bad_case
+  end.
+
 Definition table_C13 : table :=
   [("ConvertTileXYZsToExtendedSpatialIDs", fun _ => d_conv false);
    ("ConvertTileXYZsToSpatialIDs", fun _ => d_conv true);
    ("NewTileXYZ", fun _ => d_new_tile);
    ("TileSequence", fun _ => d_seq);
-   ("TilePair", fun _ => d_pair)].
+   ("TilePair", fun _ => d_pair);
+   ("TileObjectSequence", fun _ => d_objseq);
+   ("VerifExtendedSpatialIDCheckZoom", fun _ => d_checkzoom);
+   ("CheckZoomGrid", fun _ => d_checkzoom_grid)].
 
 (* an accepted pair: the observed strings are a permutation of the expansion of the observed extended IDs *)
 Theorem pair_law_sound ss r : sids_match ss (flat_map expand_rec r) || multiset_eqb ss (flat_map expand_eid r) = true ->
